@@ -156,10 +156,19 @@ class BtpStub:
         self.station_index = station_index
         self.captured = []     # (utc ms, tag, BTPDataRequest)
         self.callbacks = {}
+        self.attempts = {}     # tag -> number of hand-over attempts so far
+        self.fail_at = {}      # tag -> set of attempt indices that raise
+        self.raised = []       # (utc ms, tag, attempt index)
 
     def btp_data_request(self, request):
         cur = _Env.sched.current if _Env.sched is not None else None
         tag = cur.tag if cur is not None else _Env.inline_tag
+        # scripted lower-layer failure: the k-th hand-over attempt of an event raises (audit round)
+        k = self.attempts.get(tag, 0)
+        self.attempts[tag] = k + 1
+        if k in self.fail_at.get(tag, ()):
+            self.raised.append((VCLOCK.ms, tag, k))
+            raise OSError("link layer temporarily unavailable (scripted)")
         self.captured.append((VCLOCK.ms, tag, request))
 
     def register_indication_callback_btp(self, port, callback):
@@ -235,8 +244,17 @@ def run_scenario(ctx, sc_in, label="scenario"):
                 tpv["lon"] = rq["lon"]
             if rq.get("alt") is not None:
                 tpv["altHAE"] = rq["alt"]
-            S["app"].denm_interval = rq["i"]
-            S["app"].denm_duration = rq["T"]
+            if rq.get("new_app"):
+                # the application is started anew (constructor arguments instead of attribute writes): a second
+                # application object on the same DEN service; the station's numbering of events must go on
+                S["app"] = EmergencyVehicleApproachingService(S["den"], duration=rq["T"])
+                if rq["i"] != 1000:                  # 1000 ms is the constructor's own repetition interval
+                    S["app"].denm_interval = rq["i"]
+            else:
+                S["app"].denm_interval = rq["i"]
+                S["app"].denm_duration = rq["T"]
+            if rq.get("fail_at"):
+                S["btp"].fail_at[tag] = set(rq["fail_at"])
             sched.next_tag = tag
             _Env.inline_tag = tag
             try:
@@ -287,6 +305,7 @@ def run_scenario(ctx, sc_in, label="scenario"):
             shape = 0 if (ptt.header_type == HeaderType.GEOBROADCAST and
                           ptt.header_subtype == GeoBroadcastHST.GEOBROADCAST_CIRCLE) else 1
             tx = {"time": t, "port": r.destination_port, "btp_b": r.btp_type == CommonNH.BTP_B, "shape": shape,
+                  "its_aid": getattr(r, "its_aid", None), "sec": getattr(getattr(r, "security_profile", None), "name", None),
                   "area": (r.gn_area.latitude, r.gn_area.longitude, r.gn_area.a, r.gn_area.b, r.gn_area.angle),
                   "hdr": d["header"]["stationId"], "orig": m["actionId"]["originatingStationId"],
                   "seq": m["actionId"]["sequenceNumber"], "ref": m["referenceTime"],
@@ -322,7 +341,12 @@ def oracle(ctx, sc_full, stations, sc):
                 if rq.get("lat") is not None and rq.get("lon") is not None:
                     want_pos = (to_units(rq["lat"]), to_units(rq["lon"]))
                 n = ceil_div(rq["T"], rq["i"]) if rq["T"] > 0 else 0
-                want_times = [ev["t0"] + j * rq["i"] for j in range(n)]
+                # a repetition the lower layer refused cannot be handed over; all the others must be, on schedule
+                failed = {k_ for (_, tg, k_) in S["btp"].raised if tg == (si, k)}
+                want_times = [ev["t0"] + j * rq["i"] for j in range(n) if j not in failed]
+                ev["failed"] = failed
+                if failed:
+                    ctx.count(len(failed), "handover_refused")
                 if ev["error"]:
                     fail(ctx, "request_raised", sc, si, k, "the trigger raised " + ev["error"], None, ev["error"])
                 ctx.nontriv(("ev", rq["i"], rq["T"], want_pos))
@@ -359,6 +383,11 @@ def oracle(ctx, sc_full, stations, sc):
                 if x["port"] != 2002 or not x["btp_b"] or x["shape"] != 0 or not x["len_ok"]:
                     fail(ctx, "gbc_request", sc, si, k, "not a BTP-B geo-broadcast to a circle on port 2002",
                          [2002, True, 0], [x["port"], x["btp_b"], x["shape"]])
+                if x["its_aid"] != 37 or x["sec"] != "DECENTRALIZED_ENVIRONMENTAL_NOTIFICATION_MESSAGE":
+                    # handed over AS A DENM: ITS-AID 37 (TS 102 965) and the DENM security profile
+                    fail(ctx, "gbc_request", sc, si, k, "the request does not identify the payload as a DENM "
+                         "(ITS-AID 37, DENM security profile)", [37, "DECENTRALIZED_ENVIRONMENTAL_NOTIFICATION_MESSAGE"],
+                         [x["its_aid"], x["sec"]])
                 if x["area"][0:2] != (x["lat"], x["lon"]) or x["area"][2] <= 0:
                     fail(ctx, "gbc_area", sc, si, k, "destination circle is not centred on the event position of the DENM",
                          [x["lat"], x["lon"]], list(x["area"]))
@@ -442,8 +471,9 @@ def correspondence(ctx, sc_full, stations, sc):
                 ctx.mismatch("event position = Den.ev_lat/ev_lon", dict(inp, event=ev["index"]), list(me["pos"]),
                              list(ev["app_pos"]))
             itx = []
-            ok = len(ev["txs"]) == len(me["txs"])
-            for x, mx in zip(ev["txs"], me["txs"]):
+            mtxs = [mx for j, mx in enumerate(me["txs"]) if j not in ev.get("failed", ())]
+            ok = len(ev["txs"]) == len(mtxs)
+            for x, mx in zip(ev["txs"], mtxs):
                 row = [x["time"], x["port"], x["shape"], *x["area"], x["hdr"], x["orig"], x["seq"], x["ref"],
                        x["lat"], x["lon"]]
                 itx.append(row)
@@ -451,7 +481,7 @@ def correspondence(ctx, sc_full, stations, sc):
                 if row[:11] != mx[:11] or row[12:] != mx[12:] or not (mx[11] - 1 <= row[11] <= mx[11]):
                     ok = False
             if not ok:
-                ctx.mismatch("hand-overs of one event = Den.ev_txs", dict(inp, event=ev["index"]), me["txs"][:6], itx[:6])
+                ctx.mismatch("hand-overs of one event = Den.ev_txs", dict(inp, event=ev["index"]), mtxs[:6], itx[:6])
             if ev["txs"] and ev["txs"][0]["seq"] != me["seq"]:
                 ctx.mismatch("sequence number of the event = Den.ev_seq", dict(inp, event=ev["index"]), me["seq"],
                              ev["txs"][0]["seq"])
@@ -471,6 +501,8 @@ def schedule_cases(ctx, pairs, label):
             lat = ctx.rng.randrange(LAT_MIN, LAT_MAX + 1) / 1e7
             lon = ctx.rng.randrange(LON_MIN, LON_MAX + 1) / 1e7
             reqs.append({"st": 0, "kind": "ev", "t": t, "lat": lat, "lon": lon, "alt": 12.5, "i": i, "T": T})
+            if i == 1000 or ctx.rng.random() < 0.1:
+                reqs[-1]["new_app"] = True      # duration through the constructor, interval 1000 = its default
             t += T + i + 1
         sc = {"stations": [{"id": ctx.rng.randrange(0, 2 ** 32), "seq0": ctx.rng.randrange(0, SEQ_MOD)}],
               "requests": reqs}
@@ -551,6 +583,16 @@ def random_scenario(rng, n_req, n_st=None, int_conf=False):
                 r["lat"] = None
             elif p < 0.12:
                 r["lon"] = None
+            elif p < 0.27:
+                r["new_app"] = True      # the application object is created anew for this event (complete TPV)
+                if rng.random() < 0.5:
+                    r["i"] = 1000        # the constructor's own interval
+                    r["T"] = rand_duration(rng, 1000)
+            n_rep = ceil_div(r["T"], r["i"]) if r["T"] > 0 else 0
+            if n_rep and rng.random() < 0.15:
+                # the lower layer refuses some hand-overs of this event (the first, the last, any)
+                ks = {rng.choice([0, n_rep - 1, rng.randrange(n_rep)]) for _ in range(rng.choice([1, 1, 2, 3]))}
+                r["fail_at"] = sorted(ks)
         else:
             lat, lon = rand_pos(rng)
             conf = rng.choice(ALT_CONF)
